@@ -218,6 +218,9 @@ def prepare(elaboratable):
     return Fragment.get(elaboratable, platform=None).prepare()
 
 
+_ABSENT = object()
+
+
 class SymSim:
     """The real PySimEngine over H states with interpreted (merged) RTL processes."""
 
@@ -281,9 +284,19 @@ class SymSim:
             saved = [(s, s.curr, s.next) for s in self.state.slots if isinstance(s, _RealSignalState)]
             saved_mem = [(s, list(s.data)) for s in self.state.slots if isinstance(s, _RealMemoryState)]
             pend = set(self.state.pending)
+            # the learning run must reach the final update() calls and stay silent: assertions and prints are neutralised
+            g = run.__globals__
+            quiet = {k: g.get(k, _ABSENT) for k in ("pin_blame", "print")}
+            g["pin_blame"] = lambda *a, **k: None
+            g["print"] = lambda *a, **k: None
             try:
                 run()
             finally:
+                for k, v in quiet.items():
+                    if v is _ABSENT:
+                        del g[k]
+                    else:
+                        g[k] = v
                 HSignalState.record = None
                 for s, c, n in saved:
                     s.curr, s.next = c, n
